@@ -66,8 +66,14 @@ func TestC18Exhaustive(t *testing.T) {
 	L := stats.N("VERIF_C18_L", 3)
 	kinds := []int{}
 	// shard = backend kind
+	// shards nKinds.. repeat the bolt back-ends with an alphabet whose numeric order differs from the order of its
+	// little-endian (or otherwise mis-encoded) keys and crosses the one-byte and two-byte boundaries
+	wide := false
 	if sh := stats.Shard(); sh < nKinds {
 		kinds = append(kinds, sh)
+	} else if sh-nKinds < nKinds && isBolt(sh-nKinds) {
+		kinds = append(kinds, sh-nKinds)
+		wide = true
 	} else {
 		t.Skip("no backend for this shard")
 	}
@@ -77,6 +83,9 @@ func TestC18Exhaustive(t *testing.T) {
 		alphabet := []uint64{0, 1, 2, 3}
 		if kind == kMemFull {
 			alphabet = []uint64{20, 21, 22, 23}
+		}
+		if wide {
+			alphabet = []uint64{255, 256, 257, 65536}
 		}
 		bodies := allBodies(alphabet, 3)
 		probe := append(append([]uint64{}, alphabet...), alphabet[3]+1)
@@ -195,9 +204,17 @@ func TestC18Random(t *testing.T) {
 				}
 			}
 		}
-		genRound := rapid.OneOf(rapid.Uint64Range(0, 12), rapid.Uint64Range(0, 40))
+		// rounds are base+small: the bases put the window across the 1-, 2-, 4- and 7-byte boundaries of the key encoding
+		base := rapid.SampledFrom([]uint64{0, 0, 0, 240, 65520, 1<<32 - 20, 1<<56 - 20}).Draw(rt, "base")
+		if kind == kMemFull {
+			base = 0
+		}
+		if base > 0 {
+			flags["high-rounds"] = true
+		}
+		genRound := rapid.Map(rapid.OneOf(rapid.Uint64Range(0, 12), rapid.Uint64Range(0, 40)), func(x uint64) uint64 { return base + x })
 		sawMutation := false
-		nextAppend := uint64(0)
+		nextAppend := base
 		rt.Repeat(map[string]func(*rapid.T){
 			"append": func(rt *rapid.T) {
 				// contiguous growth, the normal workload
